@@ -126,6 +126,15 @@ class TheCheck(Check):
                    "qstr_conv_encoding (iconv) is not covered"]
     exhaustive_note = True
 
+    def regenerate(self):
+        # K-gen: the retry loop of DYNAMIC_VSPRINTF (start size, growth, fit test, loop body)
+        from translator import fmtmacro
+        out = os.path.join(vlib.LEAN, "QlibcModel/Generated/FmtMacro.lean")
+        text = fmtmacro.render(fmtmacro.extract(vlib.REPO))
+        if not os.path.exists(out) or open(out).read() != text:
+            open(out, "w").write(text)
+        return [out]
+
     def nontrivial_key(self, op, line):
         w = op.split()
         return op if any(x not in ("-",) for x in w[1:2]) else "trivial"
